@@ -283,15 +283,22 @@ async fn run_fsreal(case: Value, base: &str) -> Value {
 	std::fs::create_dir_all(&dir).unwrap();
 	let dir = std::fs::canonicalize(&dir).unwrap();
 	let log: Arc<Mutex<Vec<Value>>> = Arc::new(Mutex::new(vec![]));
-	let config = Config::default();
+	let mut config = Config::default();
+	if let Some(n) = case["event_channel_size"].as_u64() {
+		config.event_channel_size = n as usize;
+	}
 	config.throttle(Duration::from_millis(case["throttle_ms"].as_u64().unwrap_or(50)));
 	config.pathset([dir.clone()]);
 	config.file_watcher(if case["watcher"] == "poll" { watchexec::sources::fs::Watcher::Poll(Duration::from_millis(40)) } else { watchexec::sources::fs::Watcher::Native });
 	config.filterer(TapFilter(log.clone(), t0));
 	let log2 = log.clone();
+	let slow = case["handler_slow_ms"].as_u64().unwrap_or(0);
 	config.on_action(move |action| {
 		let keys: Vec<String> = action.events.iter().map(|e| format!("{:?}", e.tags)).collect();
 		log2.lock().unwrap().push(json!({"k": "batch", "t": ms(t0), "keys": keys}));
+		if slow > 0 {
+			std::thread::sleep(Duration::from_millis(slow));
+		}
 		action
 	});
 	let log3 = log.clone();
@@ -321,6 +328,13 @@ async fn run_fsreal(case: Value, base: &str) -> Value {
 		let r = match op["op"].as_str().unwrap() {
 			"mkdir" => std::fs::create_dir_all(&p).map(|_| ()),
 			"create" | "write" => std::fs::write(&p, format!("{}", ms(t0))).map(|_| ()),
+			"burst" => {
+				// many files at once: more events than the event queue holds while the handler is busy
+				for k in 0..op["n"].as_u64().unwrap_or(100) {
+					let _ = std::fs::write(p.with_file_name(format!("burst{k}.txt")), b"x");
+				}
+				Ok(())
+			}
 			"remove" => std::fs::remove_file(&p),
 			"rmdir" => std::fs::remove_dir_all(&p),
 			"rename" => std::fs::rename(&p, dir.join(op["to"].as_str().unwrap())),
@@ -329,7 +343,8 @@ async fn run_fsreal(case: Value, base: &str) -> Value {
 		log.lock().unwrap().push(json!({"k": "op", "t": ms(t0), "op": op["op"], "path": p.to_string_lossy(), "ok": r.is_ok()}));
 	}
 	tokio::time::sleep(Duration::from_millis(case["tail_ms"].as_u64().unwrap_or(500))).await;
+	let main_finished = main.is_finished();
 	main.abort();
 	let logv = log.lock().unwrap().clone();
-	json!({"id": id, "log": logv, "dir": dir.to_string_lossy()})
+	json!({"id": id, "log": logv, "dir": dir.to_string_lossy(), "main_finished": main_finished})
 }
